@@ -1812,6 +1812,7 @@ func c20Run(t *testing.T, focusID string, runMode string) {
 			}
 			if annotated {
 				order = rapid.Permutation([]int{0, 1, 2}).Draw(t, "reconcileOrder")
+				hist = append(hist, fmt.Sprintf("   reconcile order %v; bandwidth annotations of node0..2 = %q", order, annotation))
 				if st := state[focus.id]; !st.malformed { // an annotated node is reconciled before a plain node that resolves to the same strategy?
 					first := func(i int) int {
 						if st.present {
